@@ -234,4 +234,158 @@ theorem abandoned_stays_abandoned (s : T) (t : Tid) (es : List Ev) (hc : s.curre
     · exact step_current_ne s e.tid t e.op hc (fun h => hne e (List.mem_cons_self ..) h.1 h.2)
     · exact fun e' he' => hne e' (List.mem_cons_of_mem _ he')
 
+/-! ### the result hand-over (`return_queue`) -/
+
+/-- A thread that runs `_execute_test_case` alone ends with the solo trace of its statements. -/
+theorem soloRun_execOps (imp : Trace) (l : Local) (stmts : List Stmt) :
+    (soloRun imp l (execOps stmts)).trace = soloTrace imp stmts := by
+  rw [execOps, soloRun_append, soloRun_append]
+  have h1 : soloRun imp l [.initTrace, .enter] = ⟨l.enabled, imp⟩ := rfl
+  rw [h1, soloRun_exit, soloRun_stmts]
+  rfl
+
+@[simp] theorem setQ_tr (h : H) (i : Nat) (l : List (Nat × Res)) : (h.setQ i l).tr = h.tr := rfl
+
+@[simp] theorem setQ_q (h : H) (i j : Nat) (l : List (Nat × Res)) :
+    (h.setQ i l).q j = if j = i then l else h.q j := rfl
+
+/-- Queue operations do not touch the tracer; a tracer call is the tracer's `step`. -/
+theorem hstep_tr (m : QMode) (h : H) (e : HEv) :
+    (hstep m h e).1.tr = match e with
+      | .call c => (step h.tr c.tid c.op).1
+      | _ => h.tr := by
+  cases e with
+  | call c => rfl
+  | put k t exc => rfl
+  | collect k alive =>
+    simp only [hstep]
+    split
+    · rfl
+    · split <;> rfl
+
+/-- The tracer component of a history is the tracer run over the history's tracer calls: every
+schedule theorem applies to histories. -/
+theorem hfinal_tr (m : QMode) (h : H) (es : List HEv) :
+    (hfinal m h es).tr = run h.tr (callsOf es) := by
+  induction es generalizing h with
+  | nil => rfl
+  | cons e es ih =>
+    simp only [hfinal]
+    rw [ih, hstep_tr]
+    cases e <;> rfl
+
+theorem callsOf_append (a b : List HEv) : callsOf (a ++ b) = callsOf a ++ callsOf b := by
+  induction a with
+  | nil => rfl
+  | cons e a ih => cases e <;> simp [callsOf, ih]
+
+/-- Where an entry of a queue after one event comes from: it was there before, or this very event
+is the `put` of its producer, with the producer thread's trace at that moment. -/
+theorem hstep_q_mem (m : QMode) (h : H) (e : HEv) (i p : Nat) (r : Res)
+    (hm : (p, r) ∈ (hstep m h e).1.q i) :
+    (p, r) ∈ h.q i ∨ ∃ t exc, e = .put p t exc ∧ r = ⟨(h.tr.loc t).trace, exc⟩ := by
+  cases e with
+  | call c => exact Or.inl hm
+  | put k t exc =>
+    simp only [hstep, setQ_q] at hm
+    split at hm
+    · rename_i hi
+      rcases List.mem_append.mp hm with h1 | h1
+      · exact Or.inl (hi ▸ h1)
+      · simp only [List.mem_singleton, Prod.mk.injEq] at h1
+        exact Or.inr ⟨t, exc, by rw [h1.1], h1.2⟩
+    · exact Or.inl hm
+  | collect k alive =>
+    simp only [hstep] at hm
+    split at hm
+    · exact Or.inl hm
+    · split at hm
+      · exact Or.inl hm
+      · rename_i hq
+        simp only [setQ_q] at hm
+        split at hm
+        · rename_i hi
+          exact Or.inl (by rw [hi, hq]; exact List.mem_cons_of_mem _ hm)
+        · exact Or.inl hm
+
+/-- A dequeued result is the head of the queue the execution reads. -/
+theorem hstep_ok_mem (m : QMode) (h : H) (e : HEv) (k p : Nat) (r : Res)
+    (hr : (hstep m h e).2 = some (k, .ok p r)) : (p, r) ∈ h.q (m.qid k) := by
+  cases e with
+  | call c => simp [hstep] at hr
+  | put k' t exc => simp [hstep] at hr
+  | collect k' alive =>
+    simp only [hstep] at hr
+    split at hr
+    · simp at hr
+    · split at hr
+      · simp at hr
+      · rename_i hq
+        simp only [Option.some.injEq, Prod.mk.injEq, HResult.ok.injEq] at hr
+        obtain ⟨hk, hp, hrr⟩ := hr
+        rw [← hk, hq, ← hp, ← hrr]
+        exact List.mem_cons_self ..
+
+/-- `(p, r)` was put by the thread of execution `p` at some moment of the history, and `r` carries
+that thread's own trace at that moment. -/
+def PutBy (m : QMode) (h : H) (es : List HEv) (p : Nat) (r : Res) : Prop :=
+  ∃ pre t exc post, es = pre ++ HEv.put p t exc :: post
+    ∧ r = ⟨((hfinal m h pre).tr.loc t).trace, exc⟩
+
+/-- **Provenance** (any queue discipline): every result `execute` returns was in a queue at the
+start or was `put` during the history by the thread of the execution it is tagged with. -/
+theorem hresults_provenance (m : QMode) (h : H) (es : List HEv) (k p : Nat) (r : Res)
+    (hm : (k, HResult.ok p r) ∈ hresults m h es) :
+    (∃ i, (p, r) ∈ h.q i) ∨ PutBy m h es p r := by
+  induction es generalizing h with
+  | nil => simp [hresults] at hm
+  | cons e es ih =>
+    simp only [hresults, List.mem_append, Option.mem_toList] at hm
+    rcases hm with hm | hm
+    · exact Or.inl ⟨_, hstep_ok_mem m h e k p r hm⟩
+    · rcases ih _ hm with ⟨i, hi⟩ | ⟨pre, t, exc, post, he, hr⟩
+      · rcases hstep_q_mem m h e i p r hi with h1 | ⟨t, exc, he, hr⟩
+        · exact Or.inl ⟨i, h1⟩
+        · exact Or.inr ⟨[], t, exc, es, by rw [he]; rfl, hr⟩
+      · exact Or.inr ⟨e :: pre, t, exc, post, by rw [he]; rfl, hr⟩
+
+/-- Per-execution queues: every entry of queue `i` was put by execution `i`. -/
+def QOwn (h : H) : Prop := ∀ i p r, (p, r) ∈ h.q i → p = i
+
+theorem qown_init (s : T) : QOwn (H.init s) := by
+  intro i p r hm
+  simp [H.init] at hm
+
+theorem hstep_qown (h : H) (e : HEv) (ho : QOwn h) : QOwn (hstep .perExecution h e).1 := by
+  intro i p r hm
+  rcases hstep_q_mem _ h e i p r hm with h1 | ⟨t, exc, he, _⟩
+  · exact ho i p r h1
+  · subst he
+    simp only [hstep, QMode.qid, setQ_q] at hm
+    split at hm
+    · rename_i hi; exact hi.symm
+    · exact ho i p r hm
+
+/-- Per-execution queues: what `execute` number `k` dequeues was put by the thread of execution `k`. -/
+theorem hresults_own (h : H) (es : List HEv) (ho : QOwn h) (k p : Nat) (r : Res)
+    (hm : (k, HResult.ok p r) ∈ hresults .perExecution h es) : p = k := by
+  induction es generalizing h with
+  | nil => simp [hresults] at hm
+  | cons e es ih =>
+    simp only [hresults, List.mem_append, Option.mem_toList] at hm
+    rcases hm with hm | hm
+    · exact ho _ p r (hstep_ok_mem .perExecution h e k p r hm)
+    · exact ih _ (hstep_qown h e ho) hm
+
+/-- The one-pass runner computes `hfinal` and `hresults`. -/
+theorem hrun_eq (m : QMode) (h : H) (acc : List (Nat × HResult)) (es : List HEv) :
+    hrun m h acc es = (hfinal m h es, acc.reverse ++ hresults m h es) := by
+  induction es generalizing h acc with
+  | nil => simp [hrun, hfinal, hresults]
+  | cons e es ih =>
+    simp only [hrun, hfinal, hresults]
+    split
+    · rename_i hn; rw [ih, hn]; simp
+    · rename_i x hs; rw [ih, hs]; simp
+
 end PynguinModel.ThreadGuard
